@@ -30,6 +30,10 @@ type HarnessSpec struct {
 	Note     string         `json:"note,omitempty"`
 	Tier     string         `json:"tier,omitempty"` // "thorough": only run in thorough tier
 	Replay   string         `json:"replay,omitempty"`
+	// HangIsViolation: an exhausted unwinding / step bound on a feasible path is the property's own
+	// "completes within a bound linear in the input" clause failing (C09 decoders on B-byte inputs), not an
+	// inconclusive run.
+	HangIsViolation bool `json:"hang_is_violation,omitempty"`
 }
 
 type PropertySpec struct {
@@ -356,13 +360,23 @@ func (r *Runner) runPath(solver *Solver, base *baseState, pkg *ssa.Package, spec
 			switch e := rec.(type) {
 			case pathEnd:
 				res.End, res.Msg = e.Kind, e.Msg
+				if spec.HangIsViolation && (e.Kind == EndUnwind || e.Kind == EndSteps) && in.definitelyFeasible() {
+					in.ensureModel()
+					site := "?"
+					if in.top != nil {
+						site = in.top.fn.String()
+					}
+					in.report("hang", "processing does not complete within a bound linear in the input length ("+e.Msg+")", site, in.path.model)
+					res.Violations = in.path.violations
+					res.End = EndViolation
+				}
 				if e.Kind == EndUnsupported && os.Getenv("VERIF_UNSUP_STACK") != "" {
 					res.Msg += fmt.Sprintf(" at %v", in.stackTrace())
 				}
 			case *GoPanic:
 				// uncaught panic of the program under test
 				res.End, res.Msg = EndViolation, "panic: "+e.Msg
-				if in.feasible() {
+				if in.definitelyFeasible() {
 					in.ensureModel()
 					site := e.Site
 					in.reportPanic(e, site)
